@@ -1344,7 +1344,10 @@ def gen_C17(tier, rng):
 def gen_C18(tier, rng):
     cases = []; dist = collections.Counter(); n_ = 0
     namesets = [["a", "b", "c"], sorted(["é", "漢", "ü"]), sorted(["x́y", "ＷＩＤＥ", "k"]), sorted(["longvariablename1", "q", "r"]), sorted(["ěýáíé", "ščřžň", "ö"]),
-                sorted(["c-d", "e_f", "+-"])]
+                sorted(["c-d", "e_f", "+-"]),
+                # names exactly as wide as the other cells of a rendering (`true` 4, `false` 5, `result` 6): anything
+                # keyed or cached by a column's width confuses columns only then (seed R06_13)
+                sorted(["abcd", "alpha1", "fghij"]), sorted(["ab", "žluťák", "漢字漢"])]
     unclean = [sorted(["a b", "c"]), sorted(["l1\nl2", "z"]), sorted(["", "k"]), sorted(["|", "│"])]
     for nv in range(0, 4):
         for tv in gen.all_tvs(nv):
@@ -1381,7 +1384,7 @@ def gen_C18(tier, rng):
     for st in "AMDE": c.q("render %d %s N W" % (t, st))
     c.q("display %d" % t); cases.append(c.done("empty", True)); dist["empty_table"] += 1
     return {"cases": cases, "exhaustive": tier != "quick", "dist": dict(dist),
-            "rule": "every truth function of <= 3 variables over six name sets of differing display widths (ASCII, Latin with diacritics, CJK wide, combining mark, full-width, long, names with - _ +) x 4 styles x 16 Boolean formattings (quick: a quarter of the formattings for 2+ variables, every sixth 3-variable function): rendered text compared byte for byte with the model of tabled; cells read back from the REAL output by an independent splitter compared with header + one formatted row per domain point (the relation); Display = frameless / word / word; sparse functions of 5-8 (10) inputs; names with blanks, line breaks, empty or border glyphs compared with the model only; non-trivial = clean names; distinct = (function, name set)"}
+            "rule": "every truth function of <= 3 variables over eight name sets of differing display widths (ASCII, Latin with diacritics, CJK wide, combining mark, full-width, long, names with - _ +, names exactly as wide as the cells true / false / result) x 4 styles x 16 Boolean formattings (quick: a quarter of the formattings for 2+ variables, every sixth 3-variable function): rendered text compared byte for byte with the model of tabled; cells read back from the REAL output by an independent splitter compared with header + one formatted row per domain point (the relation); Display = frameless / word / word; sparse functions of 5-8 (10) inputs; names with blanks, line breaks, empty or border glyphs compared with the model only; non-trivial = clean names; distinct = (function, name set)"}
 
 
 GENERATORS.update({"C16": gen_C16, "C17": gen_C17, "C18": gen_C18})
